@@ -127,6 +127,7 @@ def job(cfgs):
 
 PRIOR = {'success': ['valid'], 'rejected': ['exc2'], 'rejected@.5T': ['exc@.5T'], 'rejected@.9T': ['exc@.9T'],
          'success@.5T': ['valid@.5T'], 'success-after-timeout': ['drop', 'valid'], 'fragments': ['frag2@.4T'],
+         'rejected-late-twice': ['exc@1.2T', 'exc@1.2T'], 'success-late-twice': ['valid@1.2T', 'valid@1.2T'],
          'garbage-then-valid': ['garbage', 'valid']}
 
 
@@ -141,10 +142,11 @@ def run_hist(cfg):
             sc = ['garbage']
         s.request(sc)           # no drain: the next request follows at once, as ET.read_runtime_data() does
     letter = 'exc2' if cfg['delay'] == 0 else f"exc@{cfg['delay']}T"
-    obs = s.request(['drop'] * cfg['k'] + [letter], settle=False)
+    s.peer.exc_code = 3         # the explored request is refused with another code than the earlier ones
+    obs = s.request(['drop'] * cfg['k'] + [letter.replace('exc2', 'exc3')], settle=False)
     vio = []
     res = obs.result
-    want = wire.exception_reason(2)
+    want = wire.exception_reason(3)
     if res[0] != 'exc' or res[1] != 'RequestRejectedException':
         vio.append(('rejected-exception', f'{res[:2]}'))
     elif res[2] != want:
